@@ -534,7 +534,16 @@ func (w *World) closureByVar(parent *ssa.Function, name string) *ssa.Function {
 			if !ok || a.Comment != name {
 				continue
 			}
-			switch v := st.Val.(type) {
+			sv := st.Val
+			for {
+				// a function literal assigned to a variable of a named func type (events.Listener) is converted first
+				if ct, ok := sv.(*ssa.ChangeType); ok {
+					sv = ct.X
+					continue
+				}
+				break
+			}
+			switch v := sv.(type) {
 			case *ssa.MakeClosure:
 				found = v.Fn.(*ssa.Function)
 				count++
@@ -592,7 +601,7 @@ func (w *World) findImmutableGlobals() {
 
 // findMutableFields records which fields of module struct types are assigned outside construction.
 // A store initialises (rather than mutates) when its target is an object allocated in the same function, or when the
-// function is a constructor (Make*, New*, Construct). Fields never mutated keep their value across calls that
+// function is a constructor (Make*, New*, Construct, Prototype - the wiring step of the New* functions). Fields never mutated keep their value across calls that
 // "may modify anything" (assumption: Construct runs once per object; external code cannot assign module fields
 // except exported ones, which are treated as mutable when exported and of a type used outside the module).
 func (w *World) findMutableFields() {
@@ -602,7 +611,7 @@ func (w *World) findMutableFields() {
 			f = f.Parent()
 		}
 		n := f.Name()
-		return strings.HasPrefix(n, "Make") || strings.HasPrefix(n, "New") || n == "Construct" || n == "init"
+		return strings.HasPrefix(n, "Make") || strings.HasPrefix(n, "New") || n == "Construct" || n == "Prototype" || n == "init"
 	}
 	for _, f := range w.allFuncs {
 		ctor := isCtor(f)
